@@ -202,7 +202,9 @@ def _run_ephem(res, item, tmp):
     imported = _imported_ids(mix)
     for name in names:
         _, keep, gap = variants[name]
-        path = os.path.join(tmp, f"imp_{name}.sqlite3")
+        # ONE path for every variant of this item: the file is deleted and re-created between consecutive runs of the
+        # same process, as a user regenerating an importer file between studies does
+        path = os.path.join(tmp, "importer.sqlite3")
         _derive(src, path, keep, gap)
         rows, _ = _db_rows(path)
         sha0, dump0 = _sha(path), _logical_dump(path)
@@ -216,7 +218,7 @@ def _run_ephem(res, item, tmp):
                 expect_fail = k
                 break
         sc = scen.build(cfg, importer_db_path=f"sqlite:///{path}")
-        failed_at, err_type, bad_state, bad_epoch = None, None, None, None
+        failed_at, err_type, bad_state, bad_epoch, bad_views = None, None, None, None, None
         for k in range(1, n + 1):
             try:
                 sc.stepForward()
@@ -231,6 +233,19 @@ def _run_ephem(res, item, tmp):
                 got = np.asarray(agents[a].eci_state, dtype=float)
                 if want is None or not np.array_equal(got, want):
                     bad_state = bad_state or (k, a, got.tolist(), None if want is None else want.tolist())
+                # ... and its Earth-fixed views are those of that state AT that epoch
+                from resonaate.physics.transforms.methods import ecef2lla, eci2ecef  # noqa: PLC0415
+
+                want_ecef = np.asarray(eci2ecef(got, START + timedelta(seconds=k * dt)), dtype=float)
+                got_ecef = np.asarray(agents[a].ecef_state, dtype=float)
+                got_lla = np.asarray(agents[a].lla_state, dtype=float)
+                want_lla = np.asarray(ecef2lla(want_ecef), dtype=float)
+                # tolerance: the agent's epoch is recovered from a Julian date (resolution ~4e-5 s); Earth rotation moves
+                # the Earth-fixed position by omega * |r| * dt -> allow 1e-4 s of epoch noise (a step is 60 s or more)
+                tol_km = 7.2921159e-5 * float(np.linalg.norm(got[:3])) * 1e-4
+                if np.abs(got_ecef[:3] - want_ecef[:3]).max() > tol_km or np.abs(got_lla[:2] - want_lla[:2]).max() > 7.2921159e-5 * 1e-4:
+                    bad_views = bad_views or (k, a, {"ecef_position_error_km": float(np.abs(got_ecef[:3] - want_ecef[:3]).max()),
+                                                      "lat_lon_error_rad": float(np.abs(got_lla[:2] - want_lla[:2]).max())})
                 # the agent that took the record over is AT the epoch of that record (what its output row is filed under)
                 t_a, jd_a = float(agents[a].time), float(agents[a].julian_date_epoch)
                 if abs(t_a - k * dt) > 1e-3 or abs(jd_a - float(sc.clock.julian_date_epoch)) > 2e-9:
@@ -278,6 +293,16 @@ def _run_ephem(res, item, tmp):
             expected="imported agent's time / Julian date == the step's epoch",
             item=item if dt != DT else ("ephem", mix, n, [name]),
         )
+        res.case(
+            "ephem/earth_fixed_views_at_record_epoch",
+            case,
+            bad_views is None,
+            nontrivial=True,
+            signature="C19/ephem/earth_fixed_views_stale",
+            observed=bad_views,
+            expected="ecef_state / lla_state == conversion of the imported state at the record's epoch",
+            item=item if dt != DT else ("ephem", mix, n, [name]),
+        )
         # ... and its truth rows in the OUTPUT database sit at the epochs of the run, one per step
         if failed_at is None:
             from sqlalchemy import text  # noqa: PLC0415
@@ -293,11 +318,8 @@ def _run_ephem(res, item, tmp):
                     bad_rows.append((a, got_jd[:4], want_jd[:4]))
             res.case("ephem/output_rows_at_run_epochs", case, not bad_rows, nontrivial=nontriv or dt != DT,
                      signature="C19/ephem/output_rows_misfiled", observed=bad_rows[:1], item=item if dt != DT else ("ephem", mix, n, [name]))
-        for eng in sc.tasking_engines.values():
-            if eng._importer_db is not None:  # noqa: SLF001
-                eng._importer_db.engine.dispose()  # noqa: SLF001
-        if sc._ephem_importer is not None:  # noqa: SLF001
-            sc._ephem_importer._importer_db.engine.dispose()  # noqa: SLF001
+        # (the importer connections of this run are deliberately NOT disposed: the next variant re-creates the file at
+        #  the same path, and a library that kept a handle on the old file would go on reading the old records)
         res.case("ephem/importer_unchanged", case, _sha(path) == sha0 and _logical_dump(path) == dump0,
                  signature="C19/importer_db_modified", observed={"sha_same": _sha(path) == sha0}, item=("ephem", mix, n, [name]))
         # the write API of the importer interface refuses
@@ -314,7 +336,7 @@ def _run_obs(res, item, tmp):
     variants = {v[0]: v for v in _variants(n)}
     for name in names:
         _, keep, gap = variants[name]
-        path = os.path.join(tmp, f"imp_obs_{name}.sqlite3")
+        path = os.path.join(tmp, "importer.sqlite3")
         _derive(src, path, keep, gap)
         if item[0] == "obs_rt":
             # tag the stored observations so they are distinguishable from the identical ones the run makes itself
